@@ -77,10 +77,11 @@ Definition compute_weights (pts : list pdata) (select pt_ind : list nat) : optio
   if Nat.eqb sectors 1 then
     Some (add_at weights 0 (compute_atom_weight pts (nth 0 select 0)))
   else
-    Some (fold_left (fun weights i =>
-            let s := nth i pt_ind 0 in let e := nth (S i) pt_ind 0 in
-            add_at weights s (compute_atom_weight (slice pts s e) i))
-          select weights).
+    (* for k, i in enumerate(select): weights[pt_ind[k]:pt_ind[k+1]] += compute_atom_weight(points[...], ..., i) *)
+    Some (fold_left (fun weights ki =>
+            let s := nth (fst ki) pt_ind 0 in let e := nth (S (fst ki)) pt_ind 0 in
+            add_at weights s (compute_atom_weight (slice pts s e) (snd ki)))
+          (combine (seq 0 (length select)) select) weights).
 
 (* ---- __call__(points, atcoords, atnums, indices): chunks of chunk_size points, segment table shifted by the
         chunk start and clipped at 0 (truncated subtraction on nat IS (indices - ibegin).clip(min=0)) ---- *)
